@@ -156,7 +156,7 @@ def coq_list(xs):
     return "[" + "; ".join("(%d)%%Z" % x for x in xs) + "]"
 
 
-def l2_phase(ctx, exe, rng, nmods):
+def l2_phase(ctx, exe, rng, nmods, crate="c06l2"):
     """Compiled behaviour vs the Coq reference interpreter. Returns (evaluations, diffs, sample)."""
     cases, defs = [], {}
     i = 0
@@ -241,11 +241,11 @@ def l2_phase(ctx, exe, rng, nmods):
     if not mods:
         return 0, [], None
     main_rs = "fn main() {\n" + "\n".join(main) + "\n}\n"
-    l2.write_crate(ctx, "c06l2", mods, main_rs)
-    ok, out = l2.build(ctx, "c06l2")
+    l2.write_crate(ctx, crate, mods, main_rs)
+    ok, out = l2.build(ctx, crate)
     if not ok:
         return 0, [("build", "the batch of accepted definitions does not compile", out[-1500:], None)], None
-    rc, stdout, stderr = l2.run_bin(ctx, "c06l2")
+    rc, stdout, stderr = l2.run_bin(ctx, crate)
     got = {}
     for line in stdout.splitlines():
         p = line.split(" ", 3)
@@ -266,7 +266,7 @@ def l2_phase(ctx, exe, rng, nmods):
                 ql.append(f"QOps {coq_list(q[5])} {coq_list(q[6])}")
         terms.append((cid, f"({t}) [" + "; ".join(ql) + "]"))
     pre = gen_common.PREAMBLE.format(mods="Layout FieldSetGen")
-    model = vlib.coq_eval_strings(ctx, pre, [(cid, "l2_expected " + t) for cid, t in terms], shard_size=6, tag="c06l2")
+    model = vlib.coq_eval_strings(ctx, pre, [(cid, "l2_expected " + t) for cid, t in terms], shard_size=6, tag=crate)
     diffs = []
     n = 0
     sample = None
@@ -308,7 +308,7 @@ def l2_phase(ctx, exe, rng, nmods):
                 want = bytes(int(x) for x in e.split(",")).hex() if e and e[0].isdigit() else e
                 if g != want:
                     diffs.append((cid, q, g, want))
-    l2.cleanup(ctx, "c06l2")
+    l2.cleanup(ctx, crate)
     out = []
     for cid, q, g, want in diffs[:5]:
         c = [c for c in cases if c["id"] == cid][0]
